@@ -163,6 +163,7 @@ def run_config(cfg, e):
             rows_arr = snp.asarray(np.array(stored, dtype=np.int64)) if cfg['rows'] else None
             if kind == 'features':
                 data, flat = _reals(e, 'f', (nst, ncl, npcs))
+                e.prefer.insert(0, flat[0] == SymReal(z3.RealVal('1/10')))   # not representable in float32
                 crow, cols = _coltable(e, 'c', T, ncl, nc) if cfg['cols'] else (None, None)
                 req = _req(e, cfg['nreq'], nc)
                 mdl.sparse_features = Bunch(data=data, cols=cols, rows=rows_arr)
